@@ -158,3 +158,18 @@ Definition chk_S_setop (expect : list val) probes (observed : res vobs) : bool :
   | Err _ => false
   | Ok o => chk_S_index (o_values o) probes observed && same_set (map canon (o_values o)) expect
   end.
+
+(* label-slice selection (inclusive stop): positions through the label slice, then positional selection *)
+Definition vS_loc_slice (labels : list val) (a b : option val) (st : option Z) : res (list val) :=
+  match S_lookup_slice val_eqb (map canon labels) (option_map vkey a) (option_map vkey b) st with
+  | Err e => Err e
+  | Ok s => vS_iloc_slice labels s
+  end.
+
+(* sample(k): an index holding k of the labels of the source (which ones is not C02's business) *)
+Definition chk_S_sample (labels : list val) (k : Z) probes (observed : res vobs) : bool :=
+  match observed with
+  | Err _ => false
+  | Ok o => chk_S_index (o_values o) probes observed && subsetb (map canon (o_values o)) (map canon labels) &&
+            (zlen (o_values o) =? k)
+  end.
